@@ -93,10 +93,8 @@ TrURecv ==
        THEN /\ dataQ # <<>> /\ Head(dataQ)[2] = Trace[l].buf
             /\ got' = Append(got, Head(dataQ)[1])
             /\ dataQ' = Tail(dataQ)
-            \* a zero-length block makes the consumer look at the latched error; the latch itself is not
-            \* logged, so whether it was already set is left to the model
-            /\ \/ UNCHANGED <<upc, result>>
-               \/ Trace[l].len = 0 /\ upc' = "done" /\ result' \in {"eof", "decode", "source"}
+            \* a zero-length block is a block like any other (fix 062dfed): the consumer goes on
+            /\ UNCHANGED <<upc, result>>
        ELSE /\ dataQ = <<>> /\ data = "closed"
             /\ result' = latched /\ upc' = "done"
             /\ UNCHANGED <<got, dataQ>>
